@@ -33,7 +33,7 @@ from gsvc.contract import contract
 from gsvc import symrun
 from contracts import axioms as ax
 from contracts import c18
-from contracts.c18 import arr, lazy_ite, is_nan_leaf, _quiet, isclose
+from contracts.c18 import arr, lazy_ite, is_nan_leaf, _quiet, isclose, lemma
 
 P = "C19"
 SRC = "transform/array.py:"
@@ -123,7 +123,7 @@ def uniform(ctx, given):
     ctx.ensure("shape", ctx.shape_eq(out, (len(xs),)))
     for i, x in enumerate(xs):
         ctx.ensure("out=low+(high-low).Phi((x-mu)/sigma)", ctx.eq(out[i], ppf_uniform(ctx, Phi(ctx, x, mu, var), low, high)))
-        ctx.ensure("low<high=>out-in-(low,high)", ctx.Implies(ctx.lt(low, high), ctx.And(ctx.gt(out[i], low), ctx.lt(out[i], high))))
+        ctx.ensure("low<high=>out-in-[low,high]", ctx.Implies(ctx.lt(low, high), ctx.And(ctx.ge(out[i], low), ctx.le(out[i], high))))
     d = ta.array_to_uniform(arr(ctx, xs), **kw)
     for i, x in enumerate(xs):
         ctx.ensure("defaults:uniform-on-[0,1]", ctx.eq(d[i], Phi(ctx, x, mu, var)))
@@ -131,8 +131,9 @@ def uniform(ctx, given):
 
 @contract(P, "array.array_to_uniform/increasing", functions=[SRC + "array_to_uniform"])
 def uniform_monotone(ctx):
-    mu, var = ctx.real("mean"), ctx.real("var", pos=True)
-    x1, x2 = ctx.real("x1"), ctx.real("x2")
+    # (sampling ranges keep |z| small enough that erf does not saturate to +-1 in floats)
+    mu, var = ctx.real("mean", lo=-1.0, hi=1.0), ctx.real("var", lo=0.5, hi=2.0)
+    x1, x2 = ctx.real("x1", lo=-2.0, hi=2.0), ctx.real("x2", lo=-2.0, hi=2.0)
     low, high = ctx.real("low"), ctx.real("high")
     ctx.require(ctx.And(ctx.gt(var, 0), ctx.lt(x1, x2), ctx.lt(low, high)))
     out = ta.array_to_uniform(arr(ctx, [x1, x2]), mean=mu, var=var, low=low, high=high)
@@ -187,7 +188,7 @@ def uquad(ctx, given, bounds):
         # the U-quadratic law on [a, b] has mean (a+b)/2 and variance 3 (b-a)^2/20
         ctx.ensure("default-bounds:mean-of-U-quadratic-law=mu", ctx.eq((a + b) / 2, mu))
         ctx.ensure("default-bounds:variance-of-U-quadratic-law=var", ctx.eq(3 * (b - a) * (b - a) / 20, var))
-        Hab = ctx.lemma("default-bounds:a<b", ctx.lt(a, b))
+        Hab = lemma(ctx, "default-bounds:a<b", ctx.lt(a, b))
     out = ta.array_to_uquad(arr(ctx, xs), **kw)
     for i, x in enumerate(xs):
         u = Phi(ctx, x, mu, var)
@@ -196,7 +197,7 @@ def uquad(ctx, given, bounds):
         h1, h2 = ax.pow_third_cubed(ctx, y), ax.pow_third_cubed(ctx, -y)
         t = out[i] - beta
         pc = list(ctx.path.pc) if ctx.mode == "sym" else []
-        L = ctx.lemma("(out-beta)^3=Y", ctx.eq(t * t * t, y))
+        L = lemma(ctx, "(out-beta)^3=Y", ctx.eq(t * t * t, y))
         ctx.ensure("F(out)=Phi", ctx.eq(alpha / 3 * (t * t * t + d * d * d), u), using=[L, Hab], generalize=[u, out[i]])
         if ctx.mode == "conc":
             ctx.ensure("out=beta+cbrt(3.Phi/alpha-(beta-a)^3)", ctx.eq(out[i], ppf_uquad(ctx, u, a, b)))
@@ -206,8 +207,8 @@ def uquad(ctx, given, bounds):
 
 @contract(P, "array.array_to_uquad/range-and-order", functions=[SRC + "array_to_uquad", SRC + "_uniform_to_uquad"], timeout=40)
 def uquad_range(ctx):
-    mu, var = ctx.real("mean"), ctx.real("var", pos=True)
-    a, b, x1, x2 = ctx.real("a"), ctx.real("b"), ctx.real("x1"), ctx.real("x2")
+    mu, var = ctx.real("mean", lo=-1.0, hi=1.0), ctx.real("var", lo=0.5, hi=2.0)
+    a, b, x1, x2 = ctx.real("a"), ctx.real("b"), ctx.real("x1", lo=-2.0, hi=2.0), ctx.real("x2", lo=-2.0, hi=2.0)
     Hab = ctx.require(ctx.And(ctx.gt(var, 0), ctx.lt(a, b)))
     Hx = ctx.require(ctx.lt(x1, x2))
     cdf_hints(ctx, var)
@@ -219,10 +220,10 @@ def uquad_range(ctx):
         alpha, beta, d, y = uquad_terms(ctx, u, a, b)
         h1, h2 = ax.pow_third_cubed(ctx, y), ax.pow_third_cubed(ctx, -y)
         t = out[i] - beta
-        Ls.append(ctx.lemma("(out-beta)^3=Y", ctx.eq(t * t * t, y)))
+        Ls.append(lemma(ctx, "(out-beta)^3=Y", ctx.eq(t * t * t, y)))
         ts.append(t)
         us.append(u)
-    U = ctx.lemma("0<Phi(x1)<Phi(x2)<1", ctx.And(ctx.gt(us[0], 0), ctx.lt(us[0], us[1]), ctx.lt(us[1], 1)))
+    U = lemma(ctx, "0<Phi(x1)<Phi(x2)<1", ctx.And(ctx.gt(us[0], 0), ctx.lt(us[0], us[1]), ctx.lt(us[1], 1)))
     ctx.ensure("out-in-[a,b]", ctx.And(ctx.ge(out[0], a), ctx.le(out[0], b)), using=[Ls[0], U, Hab], generalize=[us[0], us[1], out[0]])
     ctx.ensure("x1<x2=>out1<out2", ctx.lt(out[0], out[1]), using=[Ls[0], Ls[1], U, Hab], generalize=[us[0], us[1], out[0], out[1]])
 
@@ -260,8 +261,8 @@ def zinnharvey(ctx, given, conn):
 def zinnharvey_order(ctx, conn):
     """even in x - mu; values closer to the mean are mapped ABOVE (conn=high) / BELOW (conn=low)
     values farther from it: the extreme classes swap roles with the mean class"""
-    mu, var = ctx.real("mean"), ctx.real("var", pos=True)
-    d1, d2 = ctx.real("d1", nonneg=True), ctx.real("d2", nonneg=True)
+    mu, var = ctx.real("mean"), ctx.real("var", lo=0.5, hi=2.0)
+    d1, d2 = ctx.real("d1", lo=0.0, hi=2.5), ctx.real("d2", lo=0.0, hi=2.5)
     ctx.require(ctx.And(ctx.gt(var, 0), ctx.ge(d1, 0), ctx.lt(d1, d2)))
     out = ta.array_zinnharvey(arr(ctx, [mu + d1, mu - d1, mu + d2]), conn=conn, mean=mu, var=var)
     ctx.ensure("even", ctx.eq(out[0], out[1]))
@@ -318,11 +319,11 @@ def force_moments(ctx, n):
     out = ta.array_force_moments(arr(ctx, xs), mean=mu, var=var)
     m = ctx.m
     r = m.sqrt(var / var_in)
-    L0 = ctx.lemma("out=sqrt(var/var_in).(x-mean_in)+mean", ctx.eq(out, [r * (x - mu_in) + mu for x in xs]))
+    L0 = lemma(ctx, "out=sqrt(var/var_in).(x-mean_in)+mean", ctx.eq(out, [r * (x - mu_in) + mu for x in xs]))
     mo, vo = mean_var(ctx, list(out))
-    L1 = ctx.lemma("sample-mean(out)=mean", ctx.eq(mo, mu), using=[L0], generalize=[r])
-    L2 = ctx.lemma("sample-var(out)=r^2.var_in", ctx.eq(vo, r * r * var_in), using=[L0], generalize=[r])
-    L3 = ctx.lemma("r^2=var/var_in", ctx.eq(r * r, var / var_in), using=[Hv, Hw], generalize=[var_in])
+    L1 = lemma(ctx, "sample-mean(out)=mean", ctx.eq(mo, mu), using=[L0], generalize=[r])
+    L2 = lemma(ctx, "sample-var(out)=r^2.var_in", ctx.eq(vo, r * r * var_in), using=[L0], generalize=[r])
+    L3 = lemma(ctx, "r^2=var/var_in", ctx.eq(r * r, var / var_in), using=[Hv, Hw], generalize=[var_in])
     ctx.ensure("sample-var(out)=var", ctx.eq(vo, var), using=[L2, L3, Hv], generalize=[r, vo, var_in])
     d = ta.array_force_moments(arr(ctx, xs))
     md, vd = mean_var(ctx, list(d))
